@@ -8,6 +8,7 @@
    regression witnesses stay in the corpus of tools/props/c12.py.)  The song listings
    (SongBuilder: Queue, Find, ...) are modelled and proved by C14; C12's harness still walks them. *)
 From MPD Require Import Bytes Tables ParserModel BuilderModel FrameModel TagModel TypedModel TypedProofs.
+From MPD Require SongStd SongModel SongProofs.
 Open Scope N_scope.
 
 (* every predefined command of the model, every frame whose field names the parser could have
@@ -67,6 +68,15 @@ Proof. repeat split; vm_compute; reflexivity. Qed.
 Example c12_ex_unwrap_site : list_model (Named T_Title) [] [(b "a1", b "x")] = TPanic.
 Proof. vm_compute. reflexivity. Qed.
 
+(* the song-listing commands (Queue, QueueRange, CurrentSong, Find, GetPlaylist, ListAllIn ...): the
+   SongBuilder model of C14 never panics on fields whose keys the parser can produce - the
+   Tag::try_from(..).unwrap() and the assert!(!url.is_empty()) are unreachable *)
+Theorem c12_song_listings : forall ch fields, Forall SongProofs.parser_key (map fst fields) ->
+  SongModel.qsongs_model ch fields <> SongModel.Panic /\
+  SongModel.songs_model ch fields <> SongModel.Panic /\
+  SongModel.single_model ch fields <> SongModel.Panic.
+Proof. exact SongProofs.no_panic. Qed.
+
 Print Assumptions c12_response.
 Print Assumptions c12_consume.
 Print Assumptions c12_grouped_iter_total.
@@ -76,3 +86,4 @@ Print Assumptions c12_parser_emits_parser_keys.
 Print Assumptions c12_parser_keys_are_tags.
 Print Assumptions c12_duration_total.
 Print Assumptions c12_count_grouped_total.
+Print Assumptions c12_song_listings.
